@@ -59,6 +59,16 @@ Theorem C14_value_only_on_success : forall m path s v,
 Proof. exact run_ok_value. Qed.
 Print Assumptions C14_value_only_on_success.
 
+(** The metadata handed out with each object of a list result (ETag, ModTime, ContentLength of
+    calendar / address objects; Name, Description, MaxResourceSize, supported set of calendars /
+    address books; ModTime, ETag of sync-collection updates) is, field by field, the value the
+    multi-status reports for THAT resource with a success status, and the zero value when it is
+    not reported or reported 404 — never another resource's. *)
+Theorem C14_metadata_own_resource : forall m path r v,
+  run m path (Resp r) = COk v -> run_meta m path (Resp r) = spec_meta m path r.
+Proof. exact run_meta_spec. Qed.
+Print Assumptions C14_metadata_own_resource.
+
 (** Inner statuses: a successful call saw no response with a non-success status
     (sync-collection: other than the 404 entries, which are deletions). *)
 Theorem C14_inner_status : forall m path r v,
